@@ -118,6 +118,16 @@ def check_case(res, spec, limit, method, exprs, label, prior=()):
             determined = A.shape[0] >= A.shape[1] and sv[-1] > 1e-6 * sv[0]
             if not determined:
                 res.count("restricted system does not determine the tensions uniquely (value comparison skipped)")
+            elif method == "lsq" and sv[-1] <= 1e-3 * sv[0]:
+                # an almost singular restricted system (smallest singular value 1e-6..1e-3 of the largest): Levenberg-Marquardt creeps along
+                # the flat valley and stops on its relative-reduction test far from the optimum although the residual is tiny (seen: residual
+                # 5.7e-4 against 1.5e-14, sigma_min / sigma_max = 1.8e-6).  What that back-end reaches is C05's subject (D27); here the
+                # positions of the -1 entries, the system handed to the back-end and the re-alignment are still judged
+                determined = False
+                res.count("restricted system almost singular (Levenberg-Marquardt value comparison skipped)")
+                solved_ = [c_ for c_ in rec.calls if c_.get("x") is not None and c_.get("solver") == "lmfit"]
+                if solved_ and (np.array(solved_[-1]["A"]).shape != A.shape or np.max(np.abs(np.array(solved_[-1]["A"]) - A)) > 0):
+                    bad.append("the system handed to the Levenberg-Marquardt back-end is not the restricted augmented system")
             if len(kept) == M.shape[1] and determined:
                 diff = float(np.max(np.abs(np.array(kept) - z[:-1])))
                 if method != "lsq":
